@@ -445,7 +445,7 @@ func init() {
 		nconv := 6
 		stride := 2
 		if tier == "thorough" {
-			nconv = 40
+			nconv = 80
 			stride = 1
 		}
 		for ci := 0; ci < nconv; ci++ {
@@ -467,7 +467,7 @@ func init() {
 		// random multi-mutations
 		nmulti := 300
 		if tier == "thorough" {
-			nmulti = 20000
+			nmulti = 60000
 		}
 		for i := 0; i < nmulti; i++ {
 			out = append(out, Case{Family: "rawconv", Seed: rng.Int63(), Cfg: WorldCfg{Dir: []string{"forward", "reverse"}[i%2]}, P: map[string]int{"pos": -1, "nstreams": 1 + i%3, "multi": 2 + i%3, "burst": i % 2}, S: map[string]string{"dev": "multi"}})
